@@ -141,7 +141,7 @@ def cengine(e):
 
 
 ERR = {"ColumnError": "ColumnError", "EngineError": "EngineError", "ValueError": "ValueError",
-       "TypeError": "TypeError", "KeyError": "KeyError", "NotImplementedError": "NotImplemented",
+       "TypeError": "TypeError", "KeyError": "KeyError", "NotImplementedError": "NotImplemented", "ModelGap": "ModelGap",
        "RelationalAlgebraError": "RelAlgError", "OrderLoss": "OrderLoss"}
 
 
